@@ -873,6 +873,20 @@ MANY_STR = """
         let mut open = true;
         while k < %(maxlen)d { if open && k < len && data[k] == 'a' { run += 1; } else { open = false; } k += 1; }
 """
+add("vk_c20_one_of_p_six_needles", """
+        let mut input = vk_bytes();
+        let start = input.pos;
+        let at_end = start >= input.len;
+        let needles: [u8; 6] = kani::any();                       // any six needles, in any order, duplicates allowed
+        let mut member = false;
+        let mut k = 0usize;
+        while k < 6 { if !at_end && needles[k] == input.data[start] { member = true; } k += 1; }
+        let mut q = one_of_p::<VkText<u8>, u8, VkErr>(&needles);
+        match q.parse(&mut input) {
+            Ok(v) => assert!(member && v == input.data[start] && input.pos == start + 1),
+            Err(e) => assert!(!member && !e.fatal && input.pos == start),
+        }
+        """, functions=["rusty_pc::one_of_p"], unwind=8)
 add("vk_c20_many_chars", MANY_STR % {"maxlen": 6} + """
         let mut p = crate::text::many_str_with_combiner::<VkText<char>, VkChars, VkErr, _, _>(|c: &char| *c == 'a', VkCharCombiner);
         match p.parse(&mut input) {
